@@ -347,9 +347,13 @@ fn fill_call_plan(p: &mut Prng, sw: &Swarm, w: usize, db: usize) -> Vec<Plan> {
     let f = fault_plan(p, sw);
     let fault_at = if p.chance(1, 2) { 0 } else { p.below(n as u64 + 1) as usize };
     let mut more_faults = if f.is_some() && p.chance(1, 4) { p.below(3) } else { 0 };
+    // a burst of consecutive failures (a retrying implementation sees the error again and again)
+    let burst = if p.chance(1, 3) { 2 + p.below(3) as usize } else { 1 };
     for i in 0..n {
         if let (Some(fp), true) = (&f, i == fault_at) {
-            plan.push(fp.clone());
+            for _ in 0..burst {
+                plan.push(fp.clone());
+            }
         } else if i > fault_at && more_faults > 0 && p.chance(1, 2) {
             more_faults -= 1;
             plan.push(f.clone().unwrap());
@@ -357,7 +361,9 @@ fn fill_call_plan(p: &mut Prng, sw: &Swarm, w: usize, db: usize) -> Vec<Plan> {
         plan.push(first_word(p, sw, w, db));
     }
     if let (Some(fp), true) = (&f, fault_at >= n) {
-        plan.push(fp.clone());
+        for _ in 0..burst {
+            plan.push(fp.clone());
+        }
     }
     plan
 }
@@ -479,7 +485,11 @@ fn mixed_op(p: &mut Prng, sw: &Swarm, w: usize, db: usize, signed: bool, shape_w
                                 1 => (vol as u64).saturating_sub(1 + p.below(w as u64 + 1)), // inside the last element
                                 _ => p.below(vol as u64),
                             };
-                            plan.insert(0, Plan::FaultAtByte(at, Box::new(f)));
+                            // optionally a burst: the same request position fails again when retried
+                            let burst = if p.chance(1, 3) { 2 + p.below(3) } else { 1 };
+                            for _ in 0..burst {
+                                plan.insert(0, Plan::FaultAtByte(at, Box::new(f.clone())));
+                            }
                         }
                     }
                     plan
